@@ -24,11 +24,25 @@ def main():
     if a and a[0] == "--cleanup":
         sh("git -C /repo worktree remove --force %s" % W); shutil.rmtree(V + "/.cache/target-scratch-dev", ignore_errors=True); return
     ensure()
+    base = None
+    if a[0] == "--base":
+        base = a[1]; a = a[2:]
+        r0 = sh("git -C %s checkout -q --detach %s" % (W, base)); shutil.copy("/repo/Cargo.lock", W + "/Cargo.lock")
+        if r0.returncode:
+            print("APPLY-FAILED base", r0.stdout[-200:]); sys.exit(2)
     mode = a[0]; arg = a[1]; props = a[2:]
     if mode == "--revert":
         r = sh("git -C %s revert -n %s" % (W, arg))
     elif mode == "--patch":
         r = sh("git -C %s apply %s" % (W, os.path.abspath(arg)))
+        if r.returncode:
+            r = sh("git -C %s apply --3way %s" % (W, os.path.abspath(arg)))
+            if r.returncode or "conflict" in r.stdout.lower():
+                sh("git -C %s checkout -- . ; git -C %s reset -q --hard" % (W, W))
+                r.returncode = 1
+    elif mode == "--none":
+        props = a[1:]
+        r = sh("true")
     elif mode == "--at":
         r = sh("git -C %s checkout -q --detach %s" % (W, arg)); shutil.copy("/repo/Cargo.lock", W + "/Cargo.lock")
     elif mode == "--sub":
